@@ -584,6 +584,12 @@ class An(ResultQuantifier[T]):
         else:
             self._yield_when_false_ = yield_when_false
             any_yielded = False
+            if sources:
+                # a sub-query that is evaluated under a binding of the enclosing query: the outputs its conditions have
+                # seen (and skip as repetitions) belong to the binding it was evaluated under before.
+                for node in self._descendants_:
+                    node._seen_parent_values_ = {True: SeenSet(), False: SeenSet()}
+                    node._seen_parent_values_by_parent_ = {}
             self._child_._eval_parent_ = self
             values = self._child_._evaluate__(sources, yield_when_false=self._yield_when_false_)
             for value in values:
